@@ -261,10 +261,57 @@ def _eval_tree(t, params):
     raise ValueError(k)
 
 
+_ep_cache = {}
+
+
+def error_predicates(P, file_):
+    """Static bool helpers of a file whose every `return false` sits with a store of a failure constant to a
+    `status` member: `if (!in_bounds(dec, n, MAX)) return;` is then an error exit of the caller."""
+    if file_ in _ep_cache:
+        return _ep_cache[file_]
+    out = set()
+    for g in P.functions.values():
+        if g.file != file_ or not g.static or (g.ret or "").strip() not in ("_Bool", "bool"):
+            continue
+        falses = [r for r in g.returns() if r.c and r.c[0] is not None and r.c[0].cv == 0]
+        if not falses:
+            continue
+        ok = True
+        for r in falses:
+            blk = r.parent
+            while blk is not None and blk.k != "CompoundStmt":
+                blk = blk.parent
+            ok = ok and blk is not None and any(
+                is_assign(x) and x.c[0].strip().k == "MemberExpr" and x.c[0].strip().name == "status" and x.c[1].cv not in (0, None)
+                or (x.k == "CallExpr" and x.callee == "set_error") for x in blk.walk())
+        if ok:
+            out.add(g.name)
+    _ep_cache[file_] = out
+    return out
+
+
+def _under_failed_predicate(node, preds):
+    child = node
+    for a in node.ancestors():
+        if a.k == "IfStmt":
+            kids = [x for x in a.c if x is not None]
+            if len(kids) >= 2 and (kids[1] is child or any(x is child for x in kids[1].walk())):
+                c = kids[0].strip_casts()
+                neg = False
+                while c is not None and c.k == "UnaryOperator" and c.op == "!":
+                    neg = not neg
+                    c = c.c[0].strip_casts()
+                if neg and c is not None and c.k == "CallExpr" and c.callee in preds:
+                    return True
+        child = a
+    return False
+
+
 def balance(ctx, fn, inc, dec, rule, key_prefix):
     """Every path entry -> normal exit has as many `dec` calls as `inc` calls (depth dataflow)."""
     cfg = fn.cfg
     P = ctx.P
+    preds = error_predicates(P, fn.file)
     state = {cfg.entry: {0}}
     work = [cfg.entry]
     bad = None
@@ -286,7 +333,8 @@ def balance(ctx, fn, inc, dec, rule, key_prefix):
                     m = e.macro or ""
                     val = e.c[0] if e.c else None
                     if m or (val is not None and val.cv not in (0, None)) or \
-                            (val is not None and val.cv is None and "status" in src(val)):
+                            (val is not None and val.cv is None and "status" in src(val)) or \
+                            _under_failed_predicate(e, preds):
                         errexit = True
                     else:
                         exits.setdefault(d, e)
